@@ -550,3 +550,818 @@ static std::string expectedFilterKinds(int cfg, int shape)
 	return "MM";
 }
 
+// ------------------------------------------------------------------ model
+struct MFilter { int shape; bool live; int d; char tag; int k, m; };
+struct MLis { int key, shape, kind, akind; bool live; int ck, cm; };
+struct QEv { int key, shape, serial; DArgs a; };
+
+enum { NE_NONE, NE_FILTER, NE_LISTENER };
+
+// one dispatch in progress: what the statement promises for it
+struct Frame
+{
+	int key, shape, serial;
+	bool queued;
+	DArgs a, orig;            // the model's current / initial argument values
+	std::vector<int> fsnap, lsnap;
+	size_t fpos, lpos, fscan, lscan;
+	bool listenerPhase, blocked, cut, vetoed, modified, rewritePending;
+	int filtersRun, listenersRun, condSkipped;
+	Frame() : key(0), shape(0), serial(-1), queued(false), fpos(0), lpos(0), fscan(0), lscan(0), listenerPhase(false), blocked(false), cut(false), vetoed(false),
+		modified(false), rewritePending(false), filtersRun(0), listenersRun(0), condSkipped(0) {}
+};
+
+enum { CK_DIRECT, CK_LAZY, CK_EXPLICIT, CK_PROCIF };
+struct PCtx
+{
+	int kind;
+	std::vector<QEv> batch;
+	int cursor;
+	bool frameOpen;
+	Frame f;
+	std::vector<QEv> declined;
+	int predCalls, predK, predM;
+	unsigned predMask;
+	PCtx() : kind(CK_DIRECT), cursor(-1), frameOpen(false), predCalls(0), predK(0), predM(0), predMask(0) {}
+};
+
+struct ModeP { int pAct, maxDepth, minOps, maxOps; };
+static ModeP modeOf(const std::string & m)
+{
+	ModeP r; r.pAct = 25; r.maxDepth = 2; r.minOps = 15; r.maxOps = 45;
+	if(m == "flat") { r.pAct = 0; r.maxDepth = 0; }
+	else if(m == "deep") { r.pAct = 45; r.maxDepth = 3; r.minOps = 30; r.maxOps = 80; }
+	return r;
+}
+
+struct World : CallbackSink, Sink
+{
+	const int cfg;
+	const Caps & caps;
+	IObj * obj;
+	Rng & rng;
+	ModeP mode;
+	std::vector<MFilter> filters;     // uid == filter id
+	std::vector<int> chain;           // live filters in the order they were added
+	std::vector<MLis> lis;            // uid == callback id
+	std::map<int, std::vector<int> > lists;
+	std::deque<QEv> pending;
+	std::deque<PCtx> stack;            // push/pop at the back never invalidates the other elements
+	int nkeys, nextSerial, budget, mixK, mixM;
+	bool dead;
+	Fnv trace;
+	// per-case evidence for the non-triviality rule
+	int nBlockedLater, nRewriteSeen, nQueuedObserved, nCutSuppressing, nCondTrue, nCondFalse, nAdapter;
+
+	World(int cfg_, IObj * o, Rng & r, const ModeP & m) : cfg(cfg_), caps(kCaps[cfg_]), obj(o), rng(r), mode(m), nkeys(1), nextSerial(0), budget(0), mixK(0), mixM(0), dead(false),
+		nBlockedLater(0), nRewriteSeen(0), nQueuedObserved(0), nCutSuppressing(0), nCondTrue(0), nCondFalse(0), nAdapter(0) {}
+
+	void log(const std::string & s) { oplog("[" + num((long long)stack.size()) + "] " + s); trace.add(s); }
+	void fail(const std::string & key, const std::string & desc) {
+		violation(key, desc);
+		oplog("[" + num((long long)stack.size()) + "] !! " + key + " :: " + desc);
+		dead = true;
+	}
+	static std::string sfx(const Frame & f) { return f.queued ? ":queued" : ":direct"; }
+
+	// ---------- pure model functions (also used by the generator to aim at interesting outcomes)
+	void applyFilter(const MFilter & F, DArgs & a, int shape) const {
+		a.i0 = addWrap(a.i0, F.d);
+		if(F.tag && shapeHasS(shape) && caps.strMutable) a.s += F.tag;
+	}
+	bool filterChanges(const MFilter & F, int shape) const { return F.d != 0 || (F.tag && shapeHasS(shape) && caps.strMutable); }
+	static bool filterVerdict(const MFilter & F, int v) { return F.m == 0 || posmod((long long)v + F.k, F.m) != 0; }
+	bool condHolds(const MLis & L, const DArgs & a) const {
+		if(L.cm == 0) return true;
+		return posmod((long long)a.i0 + L.ck + (shapeHasS(L.shape) ? (long long)a.s.size() : 0), L.cm) != 0;
+	}
+	static bool isCond(int kind) { return kind == LK_COND || kind == LK_COND_ADAPT; }
+	static bool isAdapt(int kind) { return kind == LK_ADAPT || kind == LK_COND_ADAPT; }
+	// listener script on a by-reference int
+	int listenerScript(int cbid, int v, int p) const {
+		if(caps.hasCC) { v += 1; if((v & 0xff) == (p & 0xff)) v |= CC_FLAG; return v; }
+		return addWrap(v, cbid % 5 + 1);
+	}
+	struct Sim { int blockedPos; int ran; DArgs after; };
+	Sim simulate(int shape, const DArgs & a) const {
+		Sim s; s.blockedPos = -1; s.ran = 0; s.after = a;
+		for(size_t i = 0; i < chain.size(); ++i) {
+			const MFilter & F = filters[(size_t)chain[i]];
+			if(! F.live || F.shape != shape) continue;
+			applyFilter(F, s.after, shape);
+			if(! filterVerdict(F, s.after.i0)) { s.blockedPos = s.ran; ++s.ran; return s; }
+			++s.ran;
+		}
+		return s;
+	}
+
+	// ---------- frames
+	void openFrame(Frame & f, int key, int shape, const DArgs & a, bool queued, int serial) {
+		f = Frame();
+		f.key = key; f.shape = shape; f.a = a; f.orig = a; f.queued = queued; f.serial = serial;
+		for(size_t i = 0; i < chain.size(); ++i) if(filters[(size_t)chain[i]].live && filters[(size_t)chain[i]].shape == shape) f.fsnap.push_back(chain[i]);
+		const std::vector<int> & o = lists[key];
+		for(size_t i = 0; i < o.size(); ++i) if(lis[(size_t)o[i]].live && lis[(size_t)o[i]].shape == shape) f.lsnap.push_back(o[i]);
+	}
+	int nextExpected(Frame & f, int & uid) const {
+		uid = -1;
+		if(f.blocked || f.cut) return NE_NONE;
+		if(! f.listenerPhase) {
+			for(size_t p = f.fpos; p < f.fsnap.size(); ++p) if(filters[(size_t)f.fsnap[p]].live) { uid = f.fsnap[p]; f.fscan = p; return NE_FILTER; }
+		}
+		if(f.vetoed) return NE_NONE;
+		for(size_t p = f.lpos; p < f.lsnap.size(); ++p) {
+			const MLis & L = lis[(size_t)f.lsnap[p]];
+			if(! L.live) continue;
+			if(isCond(L.kind) && ! condHolds(L, f.a)) continue;
+			uid = f.lsnap[p]; f.lscan = p;
+			return NE_LISTENER;
+		}
+		return NE_NONE;
+	}
+	int remainingListeners(Frame & f) const {
+		int n = 0;
+		for(size_t p = f.lpos; p < f.lsnap.size(); ++p) if(lis[(size_t)f.lsnap[p]].live) ++n;
+		return n;
+	}
+	void closeFrame(Frame & f) {
+		if(dead) return;
+		if(! f.blocked && ! f.cut && ! f.vetoed) {
+			int uid; const int ne = nextExpected(f, uid);
+			if(ne == NE_FILTER) fail("dispatch:filter-not-run" + sfx(f), "dispatch of key " + num(f.key) + " finished without running live filter f" + num(uid));
+			else if(ne == NE_LISTENER) fail(std::string("dispatch:") + (isCond(lis[(size_t)uid].kind) ? "conditional-listener-not-run-with-true-condition" : "listener-not-run") + sfx(f),
+				"dispatch of key " + num(f.key) + " finished without running listener c" + num(uid) + " (" + kLKindName[lis[(size_t)uid].kind] + "), model arguments " + strOf(f.a, f.shape));
+			if(dead) return;
+		}
+		count(f.queued ? "dispatch.queued" : "dispatch.direct");
+		if(stack.size() > 1) count("dispatch.nested");
+		if(f.blocked) count("dispatch.outcome.blocked_by_filter");
+		else if(f.vetoed) count("dispatch.outcome.vetoed_by_mixin");
+		else if(f.cut) count("dispatch.outcome.cut_by_canContinueInvoking");
+		else count("dispatch.outcome.completed");
+		if(f.queued && f.filtersRun + f.listenersRun > 0) ++nQueuedObserved;
+	}
+	bool anyFilterPhase() const {
+		for(size_t i = 0; i < stack.size(); ++i) if(stack[i].frameOpen && ! stack[i].f.listenerPhase) return true;
+		return false;
+	}
+
+	// the frame a call observed now belongs to
+	Frame * locate(int kind, int id, const char * what) {
+		if(stack.empty()) { fail(std::string(what) + ":called-outside-any-dispatch", std::string(what) + " " + num(id) + " called while no dispatch or processing call is in progress"); return nullptr; }
+		PCtx & c = stack.back();
+		if(c.kind != CK_LAZY) {
+			if(! c.frameOpen) { fail(std::string(what) + ":called-while-no-queued-event-is-being-dispatched", std::string(what) + " " + num(id) + " called by a processing call outside the dispatch of an accepted event"); return nullptr; }
+			return &c.f;
+		}
+		int uid = -1;
+		if(c.frameOpen) { if(nextExpected(c.f, uid) != NE_NONE) return &c.f; }
+		// the current event expects nothing more: does this call start a later event of the batch?
+		int j = c.cursor + 1, ne = NE_NONE;
+		Frame tmp;
+		for(; j < (int)c.batch.size(); ++j) {
+			const QEv & e = c.batch[(size_t)j];
+			openFrame(tmp, e.key, e.shape, e.a, true, e.serial);
+			ne = nextExpected(tmp, uid);
+			if(ne != NE_NONE) break;
+		}
+		const bool have = j < (int)c.batch.size();
+		if(have && ne == kind && uid == id) {
+			if(c.frameOpen) closeFrame(c.f);
+			if(dead) return nullptr;
+			count("dispatch.queued_with_nothing_to_run", (uint64_t)(j - c.cursor - 1));
+			c.cursor = j; c.f = tmp; c.frameOpen = true;
+			log("  (queued event #" + num(tmp.serial) + " key=" + num(tmp.key) + " " + strOf(tmp.a, tmp.shape) + " is being dispatched)");
+			return &c.f;
+		}
+		if(c.frameOpen) return &c.f; // reported relative to the finished dispatch
+		if(have) { c.cursor = j; c.f = tmp; c.frameOpen = true; return &c.f; }
+		fail(std::string(what) + ":called-after-all-queued-events-were-dispatched", std::string(what) + " " + num(id) + " called by a processing call that has no event left to dispatch");
+		return nullptr;
+	}
+
+	std::string classifyFilter(const Frame & f, int fid, int ne) const {
+		if(f.blocked) return "ran-after-earlier-filter-returned-false";
+		if(f.cut) return "ran-after-canContinueInvoking-returned-false";
+		for(size_t i = 0; i < f.fsnap.size(); ++i) if(f.fsnap[i] == fid) {
+			if(i < f.fpos) return filters[(size_t)fid].live ? "called-twice-in-one-dispatch" : "removed-filter-ran-again";
+			if(! filters[(size_t)fid].live) return "removed-filter-ran";
+			if(f.listenerPhase) return "ran-after-listeners-started";
+			return "out-of-order-or-predecessor-skipped";
+		}
+		(void)ne;
+		if(fid >= 0 && fid < (int)filters.size()) {
+			if(! filters[(size_t)fid].live) return "removed-filter-ran";
+			if(filters[(size_t)fid].shape != f.shape) return "filter-of-other-prototype-ran";
+			return "filter-added-during-dispatch-ran";
+		}
+		return "unknown-filter-ran";
+	}
+	std::string classifyListener(const Frame & f, int cbid, int ne) const {
+		if(f.blocked) return "ran-after-filter-returned-false";
+		if(f.cut) return "ran-after-canContinueInvoking-returned-false";
+		if(f.vetoed) return "ran-after-mixin-veto";
+		if(ne == NE_FILTER) return "ran-before-remaining-filters";
+		for(size_t i = 0; i < f.lsnap.size(); ++i) if(f.lsnap[i] == cbid) {
+			const MLis & L = lis[(size_t)cbid];
+			if(i < f.lpos) return L.live ? "called-twice-in-one-dispatch" : "removed-listener-ran-again";
+			if(! L.live) return "removed-listener-ran";
+			if(isCond(L.kind) && ! condHolds(L, f.a)) return "conditional-ran-with-false-condition";
+			return "out-of-order-or-predecessor-skipped";
+		}
+		if(cbid >= 0 && cbid < (int)lis.size()) {
+			if(! lis[(size_t)cbid].live) return "removed-listener-ran";
+			if(lis[(size_t)cbid].key != f.key) return "listener-of-other-event-ran";
+			if(lis[(size_t)cbid].shape != f.shape) return "listener-of-other-prototype-ran";
+			return "listener-added-during-dispatch-ran";
+		}
+		return "unknown-listener-ran";
+	}
+	std::string expectText(Frame & f) const {
+		int uid; const int ne = nextExpected(f, uid);
+		if(ne == NE_FILTER) return "filter f" + num(uid);
+		if(ne == NE_LISTENER) return "listener c" + num(uid);
+		return std::string("nothing more (") + (f.blocked ? "a filter returned false" : f.cut ? "canContinueInvoking returned false" : f.vetoed ? "mixin veto" : "all done") + ")";
+	}
+
+	bool viewEquals(const ArgView & w, const DArgs & a, int shape) const {
+		const int wantI = shape == SH_II ? 2 : 1;
+		if(w.nI != wantI) return false;
+		const int v0 = w.mi[0] ? *w.mi[0] : w.iv[0];
+		if(v0 != a.i0) return false;
+		if(shape == SH_II) { const int v1 = w.mi[1] ? *w.mi[1] : w.iv[1]; if(v1 != a.i1) return false; }
+		if(shapeHasS(shape)) { if(! w.str() || *w.str() != a.s) return false; }
+		if(shape == SH_PI && w.obj != a.obj) return false;
+		return true;
+	}
+	void noteRewriteSeen(Frame & f, const char * by) {
+		if(! f.rewritePending) return;
+		f.rewritePending = false;
+		++nRewriteSeen;
+		count((std::string("rewrite.seen_downstream_by_") + by).c_str());
+	}
+
+	// ---------- Sink: a filter was really called
+	bool onFilter(int fid, ArgView & w) override {
+		if(dead) return true;
+		count("filter.calls");
+		Frame * f = locate(NE_FILTER, fid, "filter");
+		if(! f) return true;
+		int uid; const int ne = nextExpected(*f, uid);
+		if(ne != NE_FILTER || uid != fid) {
+			fail("filter:" + classifyFilter(*f, fid, ne) + sfx(*f), "filter f" + num(fid) + " called with " + w.text() + " during dispatch of key " + num(f->key) + "; model expected " + expectText(*f));
+			return true;
+		}
+		f->fpos = f->fscan + 1;
+		const MFilter F = filters[(size_t)fid];
+		const std::string kinds(w.kinds, (size_t)w.nk);
+		log("filter f" + num(fid) + " sees " + w.text() + " kinds=" + kinds);
+		if(kinds != expectedFilterKinds(cfg, f->shape)) {
+			fail("filter:argument-kind", "filter f" + num(fid) + " received argument kinds " + kinds + " (M modifiable lvalue, C const lvalue, R rvalue), expected " + expectedFilterKinds(cfg, f->shape));
+			return true;
+		}
+		if(! viewEquals(w, f->a, f->shape)) {
+			const bool lost = f->modified && viewEquals(w, f->orig, f->shape);
+			fail(std::string(lost ? "filter:arguments:earlier-filter-modification-not-seen" : "filter:arguments") + sfx(*f),
+				"filter f" + num(fid) + " received " + w.text() + ", model says " + strOf(f->a, f->shape));
+			return true;
+		}
+		noteRewriteSeen(*f, "later_filter");
+		// script: modify through the references received
+		if(w.mi[0]) *w.mi[0] = addWrap(*w.mi[0], F.d);
+		if(F.tag && w.ms) *w.ms += F.tag;
+		applyFilter(F, f->a, f->shape);
+		if(filterChanges(F, f->shape)) { f->modified = true; f->rewritePending = true; count("filter.rewrites"); }
+		const int pos = f->filtersRun++;
+		nestedActions();
+		if(dead) return true;
+		const int vNow = w.mi[0] ? *w.mi[0] : w.iv[0];
+		const bool verdict = filterVerdict(F, vNow);
+		if(! filterVerdict(F, f->a.i0)) {
+			f->blocked = true;
+			count(pos == 0 ? "blocked.at_chain_pos0" : pos == 1 ? "blocked.at_chain_pos1" : pos == 2 ? "blocked.at_chain_pos2" : "blocked.at_chain_pos3plus");
+			if(pos > 0) ++nBlockedLater;
+			count("blocked.listeners_suppressed", (uint64_t)remainingListeners(*f));
+			log("  f" + num(fid) + " returns false: blocks this dispatch at chain position " + num(pos));
+		}
+		return verdict;
+	}
+
+	// ---------- a listener was really called
+	Frame * matchListener(int cbid) {
+		Frame * f = locate(NE_LISTENER, cbid, "listener");
+		if(! f) return nullptr;
+		int uid; const int ne = nextExpected(*f, uid);
+		if(ne != NE_LISTENER || uid != cbid) {
+			fail("listener:" + classifyListener(*f, cbid, ne) + sfx(*f), "listener c" + num(cbid) + " called during dispatch of key " + num(f->key) + " (model arguments " + strOf(f->a, f->shape) + "); model expected " + expectText(*f));
+			return nullptr;
+		}
+		for(size_t p = f->lpos; p < f->lscan; ++p) if(lis[(size_t)f->lsnap[p]].live && isCond(lis[(size_t)f->lsnap[p]].kind)) { ++f->condSkipped; count("conditional.skipped_with_false_condition"); }
+		f->listenerPhase = true;
+		f->lpos = f->lscan + 1;
+		if(isCond(lis[(size_t)cbid].kind)) count("conditional.ran_with_true_condition");
+		return f;
+	}
+	void afterListener(Frame * f) {
+		const int n = ++f->listenersRun;
+		nestedActions();
+		if(dead) return;
+		if(caps.hasCC && ! polVerdict(f->a.i0)) {
+			f->cut = true;
+			const int rem = remainingListeners(*f);
+			count(n == 1 ? "canContinue.cut_after_listener1" : n == 2 ? "canContinue.cut_after_listener2" : n == 3 ? "canContinue.cut_after_listener3" : "canContinue.cut_after_listener4plus");
+			count("canContinue.listeners_suppressed", (uint64_t)rem);
+			if(rem > 0) ++nCutSuppressing;
+			log("  canContinueInvoking is false for " + strOf(f->a, f->shape) + ": cuts this dispatch after " + num(n) + " listener(s), " + num(rem) + " suppressed");
+		}
+	}
+	void onCall(int cbid, const ArgPack & args, MutInts & mut) override {
+		if(dead) return;
+		count("listener.calls");
+		Frame * f = matchListener(cbid);
+		if(! f) return;
+		ArgPack e;
+		switch(f->shape) {
+		case SH_IS: e.push(f->a.i0); e.push(vf::fpOf(f->a.s)); break;
+		case SH_II: e.push(f->a.i0); e.push(f->a.i1); break;
+		case SH_I: e.push(f->a.i0); break;
+		case SH_SI: e.push(vf::fpOf(f->a.s)); e.push(f->a.i0); break;
+		default: e.push(f->a.obj); e.push(f->a.i0); break;
+		}
+		log("listener c" + num(cbid) + " (" + kLKindName[lis[(size_t)cbid].kind] + ") sees " + args.str() + " = " + strOf(f->a, f->shape));
+		bool same = args.n == e.n;
+		for(int i = 0; same && i < e.n; ++i) same = args.fp[i] == e.fp[i];
+		if(! same) {
+			ArgPack o;
+			if(f->shape == SH_IS) { o.push(f->orig.i0); o.push(vf::fpOf(f->orig.s)); } else if(f->shape == SH_SI) { o.push(vf::fpOf(f->orig.s)); o.push(f->orig.i0); } else { o.push(f->shape == SH_PI ? f->orig.obj : f->orig.i0); o.push(f->shape == SH_PI ? f->orig.i0 : f->orig.i1); }
+			bool lost = f->modified && f->listenersRun == 0;
+			for(int i = 0; lost && i < args.n; ++i) lost = args.fp[i] == o.fp[i];
+			fail(std::string(lost ? "listener:arguments:filter-modification-not-seen" : "listener:arguments") + sfx(*f),
+				"listener c" + num(cbid) + " received " + args.str() + ", model says " + e.str() + " " + strOf(f->a, f->shape));
+			return;
+		}
+		noteRewriteSeen(*f, "listener");
+		if(caps.intByRef) {
+			if(mut.n < 1) { fail("listener:int-reference-not-modifiable", "listener c" + num(cbid) + " did not receive its int& parameter as a modifiable lvalue"); return; }
+			*mut.p[0] = listenerScript(cbid, *mut.p[0], (int)args.fp[1]);
+			f->a.i0 = listenerScript(cbid, f->a.i0, f->a.i1);
+		}
+		afterListener(f);
+	}
+	void onAdapted(int cbid, const TypedPack & p) override {
+		if(dead) return;
+		count("listener.calls");
+		Frame * f = matchListener(cbid);
+		if(! f) return;
+		const MLis L = lis[(size_t)cbid];
+		TypedPack e;
+		expectAdapted(L.akind, f->a, e);
+		log("listener c" + num(cbid) + " (" + kLKindName[L.kind] + " " + kAKindName[L.akind] + ") sees " + p.text() + " from " + strOf(f->a, f->shape));
+		bool types = p.n == e.n;
+		for(int i = 0; types && i < e.n; ++i) types = p.code[i] == e.code[i];
+		if(! types) { fail("adapter:argument-type", "adapted listener c" + num(cbid) + " " + kAKindName[L.akind] + " received " + p.text() + ", expected " + e.text()); return; }
+		bool vals = true;
+		for(int i = 0; vals && i < e.n; ++i) vals = p.val[i] == e.val[i];
+		if(! vals) { fail("adapter:argument-value", "adapted listener c" + num(cbid) + " " + kAKindName[L.akind] + " received " + p.text() + ", static_cast of the dispatched " + strOf(f->a, f->shape) + " is " + e.text()); return; }
+		if(e.ptr && p.ptr != e.ptr) { fail("adapter:object-identity", "adapted listener c" + num(cbid) + " received a pointer that is not static_pointer_cast<Derived> of the dispatched pointer"); return; }
+		++nAdapter;
+		count((std::string("adapter.calls.") + kAKindName[L.akind]).c_str());
+		if(f->a.i0 < 0) count("adapter.value_negative"); else if(f->a.i0 > 32767) count("adapter.value_above_short"); else if(f->a.i0 > 127) count("adapter.value_above_schar");
+		noteRewriteSeen(*f, "listener");
+		afterListener(f);
+	}
+	bool onCond(int cbid, ArgView & w) override {
+		if(cbid < 0 || cbid >= (int)lis.size()) return true;
+		const MLis & L = lis[(size_t)cbid];
+		const int v = w.nI > 0 ? w.iv[0] : 0;
+		const bool r = L.cm == 0 || posmod((long long)v + L.ck + (w.str() ? (long long)w.str()->size() : 0), L.cm) != 0;
+		if(dead) return r;
+		count(r ? "conditional.condition_true" : "conditional.condition_false");
+		if(r) ++nCondTrue; else ++nCondFalse;
+		log("condition of c" + num(cbid) + " sees " + w.text() + " -> " + num(r));
+		return r;
+	}
+	bool onPolicy(ArgView & w) override {
+		const bool r = polVerdict(w.nI > 0 ? w.iv[0] : 0);
+		if(dead) return r;
+		count("canContinue.policy_calls");
+		log("canContinueInvoking" + w.text() + " -> " + num(r));
+		return r;
+	}
+	bool onMixin(ArgView & w) override {
+		const int v = w.nI > 0 ? (w.mi[0] ? *w.mi[0] : w.iv[0]) : 0;
+		const bool r = mixM == 0 || posmod((long long)v + mixK, mixM) != 0;
+		if(dead) return r;
+		count("mixin.calls");
+		log("user mixin sees " + w.text() + " -> " + num(r));
+		if(! stack.empty() && stack.back().frameOpen) {
+			Frame & f = stack.back().f;
+			if(! r) { f.vetoed = true; count(f.filtersRun > 0 ? "mixin.veto_after_filters_ran" : "mixin.veto_before_any_filter"); }
+		}
+		else count("mixin.calls_unattributed");
+		return r;
+	}
+	bool onPred(ArgView * w) override {
+		if(dead) return true;
+		if(stack.empty() || stack.back().kind != CK_PROCIF) { fail("processIf:predicate-called-outside-processIf", "predicate called while the innermost context is not a processIf call"); return true; }
+		PCtx & c = stack.back();
+		if(c.frameOpen) { closeFrame(c.f); c.frameOpen = false; if(dead) return true; }
+		const int j = c.predCalls++;
+		if(j >= (int)c.batch.size()) { fail("processIf:predicate-called-more-often-than-events", "predicate call " + num(j + 1) + " for a batch of " + num((long long)c.batch.size())); return true; }
+		const QEv & e = c.batch[(size_t)j];
+		bool r;
+		if(w) {
+			const int v = w->nI > 0 ? (w->mi[0] ? *w->mi[0] : w->iv[0]) : 0;
+			r = c.predM == 0 || posmod((long long)v + c.predK, c.predM) != 0;
+			if(! viewEquals(*w, e.a, e.shape)) count("processIf.predicate_arguments_differ_from_enqueued");
+			log("predicate sees " + w->text() + " for event #" + num(e.serial) + " -> " + num(r));
+		}
+		else { r = ((c.predMask >> (j % 16)) & 1u) != 0; log("predicate() for event #" + num(e.serial) + " -> " + num(r)); }
+		if(r) {
+			count("processIf.accepted");
+			c.cursor = j;
+			openFrame(c.f, e.key, e.shape, e.a, true, e.serial);
+			c.frameOpen = true;
+		}
+		else { count("processIf.declined"); c.declined.push_back(e); }
+		return r;
+	}
+
+	// ---------- nested operations issued from inside filters and listeners
+	void nestedActions() {
+		if(dead || mode.pAct == 0 || budget <= 0) return;
+		if(! rng.chance((uint32_t)mode.pAct, 100)) return;
+		const int n = 1 + (int)rng.below(2);
+		for(int i = 0; i < n && budget > 0 && ! dead; ++i) { --budget; count("nested_ops"); step(true); }
+	}
+
+	// ---------- generated operations
+	int shapeForKey(int key) {
+		if(caps.heter) return rng.chance(1, 2) ? SH_I : SH_SI;
+		if(caps.wrapLists) return key == 0 ? SH_I : SH_PI;
+		return caps.shape;
+	}
+	int liveFilters() const { int n = 0; for(size_t i = 0; i < filters.size(); ++i) if(filters[i].live) ++n; return n; }
+	int liveListeners() const { int n = 0; for(size_t i = 0; i < lis.size(); ++i) if(lis[i].live) ++n; return n; }
+
+	void doAddFilter() {
+		MFilter F;
+		F.shape = caps.heter ? (rng.chance(1, 2) ? SH_I : SH_SI) : caps.shape;
+		F.live = true;
+		if(caps.hasCC) F.d = (int)rng.below(3);
+		else { const uint32_t c = rng.below(10); F.d = c < 3 ? 0 : c < 8 ? 1 + (int)rng.below(3) : -1 - (int)rng.below(2); }
+		const int fid = (int)filters.size();
+		F.tag = rng.chance(1, 2) ? (char)('a' + fid % 26) : (char)0;
+		static const int ms[] = { 0, 0, 0, 2, 3, 3, 4, 5 };
+		F.m = ms[rng.below(8)];
+		F.k = (int)rng.below(7);
+		filters.push_back(F);
+		chain.push_back(fid);
+		obj->addFilter(fid, F.shape);
+		count("ops.appendFilter");
+		if(! stack.empty()) count("ops.appendFilter_inside_dispatch");
+		log("appendFilter f" + num(fid) + " " + kShapeName[F.shape] + ": arg+=" + num(F.d) + (F.tag ? std::string(" str+='") + F.tag + "'" : std::string()) + (F.m ? " false when (arg+" + num(F.k) + ")%" + num(F.m) + "==0" : " always true"));
+	}
+	void doRemoveFilter() {
+		if(filters.empty()) return;
+		int fid = -1;
+		const uint32_t c = rng.below(100);
+		if(c < 65 && ! chain.empty()) fid = chain[rng.below((uint32_t)chain.size())];
+		else if(c < 80 && ! stack.empty() && stack.back().frameOpen && ! stack.back().f.fsnap.empty()) { const Frame & f = stack.back().f; fid = f.fsnap[rng.below((uint32_t)f.fsnap.size())]; }
+		else fid = (int)rng.below((uint32_t)filters.size());
+		const bool expect = filters[(size_t)fid].live;
+		const bool got = obj->removeFilter(fid);
+		if(expect) { filters[(size_t)fid].live = false; chain.erase(std::find(chain.begin(), chain.end(), fid)); }
+		count(expect ? "ops.removeFilter" : "ops.removeFilter_already_removed");
+		if(expect && ! stack.empty()) {
+			count("ops.removeFilter_inside_dispatch");
+			for(size_t i = 0; i < stack.size(); ++i) if(stack[i].frameOpen && ! stack[i].f.listenerPhase) {
+				const Frame & f = stack[i].f;
+				for(size_t p = f.fpos; p < f.fsnap.size(); ++p) if(f.fsnap[p] == fid) count("ops.removeFilter_of_filter_still_pending_in_running_dispatch");
+			}
+		}
+		if(got != expect) count("removeFilter.result_differs_from_model");
+		log("removeFilter f" + num(fid) + (expect ? "" : " (already removed)") + " -> " + num(got));
+	}
+	void doAddListener() {
+		const int key = (int)rng.below((uint32_t)nkeys);
+		MLis L;
+		L.key = key; L.shape = shapeForKey(key); L.live = true; L.akind = A_NONE;
+		int kinds[LK_N], nk = 0;
+		for(int k = 0; k < LK_N; ++k) if(caps.kinds & (1u << k)) kinds[nk++] = k;
+		L.kind = kinds[rng.below((uint32_t)nk)];
+		if(nk > 1 && L.kind == LK_PLAIN && rng.chance(1, 2)) L.kind = kinds[rng.below((uint32_t)nk)];
+		if(isAdapt(L.kind)) {
+			if(L.shape == SH_IS) L.akind = A_LONG_CSTR + (int)rng.below(4);
+			else if(L.shape == SH_I) L.akind = A_CHAR + (int)rng.below(9);
+			else L.akind = A_PDER_LONG;
+		}
+		L.cm = isCond(L.kind) ? 2 + (int)rng.below(2) : 0;
+		L.ck = (int)rng.below(5);
+		const int cbid = (int)lis.size();
+		std::vector<int> & o = lists[key];
+		int how = (int)rng.below(3), before = -1;
+		if(how == 2) {
+			// a handle of the same list and prototype (live or already removed)
+			std::vector<int> cand;
+			for(size_t i = 0; i < lis.size(); ++i) if(lis[i].key == key && lis[i].shape == L.shape) cand.push_back((int)i);
+			if(cand.empty()) how = 0; else before = cand[rng.below((uint32_t)cand.size())];
+		}
+		lis.push_back(L);
+		if(how == 0) o.push_back(cbid);
+		else if(how == 1) o.insert(o.begin(), cbid);
+		else {
+			std::vector<int>::iterator it = lis[(size_t)before].live ? std::find(o.begin(), o.end(), before) : o.end();
+			o.insert(it, cbid);
+		}
+		LSpec sp; sp.cbid = cbid; sp.kind = L.kind; sp.akind = L.akind; sp.shape = L.shape;
+		obj->addListener(cbid, how, key, sp, before);
+		count(how == 0 ? "ops.appendListener" : how == 1 ? "ops.prependListener" : "ops.insertListener");
+		count((std::string("listeners.") + kLKindName[L.kind]).c_str());
+		log(std::string(how == 0 ? "appendListener" : how == 1 ? "prependListener" : "insertListener") + " key=" + num(key) + " c" + num(cbid) + " " + kShapeName[L.shape] + " " + kLKindName[L.kind]
+			+ (L.akind ? std::string(" ") + kAKindName[L.akind] : std::string()) + (L.cm ? " runs when (arg+" + num(L.ck) + (shapeHasS(L.shape) ? "+len" : "") + ")%" + num(L.cm) + "!=0" : std::string())
+			+ (how == 2 ? " before c" + num(before) + (lis[(size_t)before].live ? "" : "(removed)") : std::string()));
+	}
+	void doRemoveListener() {
+		if(lis.empty()) return;
+		int cbid;
+		if(rng.chance(1, 4) && ! stack.empty() && stack.back().frameOpen && ! stack.back().f.lsnap.empty()) { const Frame & f = stack.back().f; cbid = f.lsnap[rng.below((uint32_t)f.lsnap.size())]; }
+		else cbid = (int)rng.below((uint32_t)lis.size());
+		MLis & L = lis[(size_t)cbid];
+		const bool expect = L.live;
+		const bool got = obj->removeListener(L.key, cbid);
+		if(expect) { L.live = false; std::vector<int> & o = lists[L.key]; o.erase(std::find(o.begin(), o.end(), cbid)); }
+		count(expect ? "ops.removeListener" : "ops.removeListener_already_removed");
+		if(got != expect) count("removeListener.result_differs_from_model");
+		log("removeListener key=" + num(L.key) + " c" + num(cbid) + (expect ? "" : " (already removed)") + " -> " + num(got));
+	}
+
+	int randomInt() {
+		if(caps.hasCC) return (int)rng.below(41);
+		if(caps.wideInts && rng.chance(3, 5)) {
+			static const int sp[] = { 0, 1, -1, 127, 128, 129, 255, 256, 257, -127, -128, -129, 32767, 32768, -32768, -32769, 65535, 65536, 1 << 24, (1 << 24) + 1, INT_MAX, INT_MAX - 1, INT_MIN, INT_MIN + 1 };
+			const uint32_t c = rng.below(30);
+			if(c < 24) return sp[c];
+			return (int)(uint32_t)rng.next();
+		}
+		return (int)rng.below(61);
+	}
+	DArgs randomArgs(int shape, int fixedI0) {
+		DArgs a;
+		a.i0 = fixedI0 >= 0 ? fixedI0 : randomInt();
+		if(shapeHasS(shape)) a.s = "s" + num(rng.below(50)) + std::string(rng.below(5), 'x');
+		if(shape == SH_PI) a.obj = 100 + (int)rng.below(900);
+		return a;
+	}
+	// aim at: pass / blocked late / blocked first / anything
+	DArgs genArgs(int key, int shape, int fixedI0) {
+		const uint32_t g = rng.below(100);
+		DArgs a = randomArgs(shape, fixedI0);
+		Sim s = simulate(shape, a);
+		for(int t = 0; t < 8; ++t) {
+			const bool ok = g < 40 ? s.blockedPos < 0 : g < 70 ? s.blockedPos > 0 : g < 78 ? s.blockedPos == 0 : true;
+			if(ok) break;
+			a = randomArgs(shape, fixedI0);
+			s = simulate(shape, a);
+		}
+		if(shape == SH_II) {
+			int nl = 0;
+			const std::vector<int> & o = lists[key];
+			for(size_t i = 0; i < o.size(); ++i) if(lis[(size_t)o[i]].live) ++nl;
+			const int k = rng.chance(1, 5) ? 0 : 1 + (int)rng.below((uint32_t)nl + 1);
+			a.i1 = k > 0 ? ((s.after.i0 + k) & 0xff) : ((s.after.i0 + 200) & 0xff);
+		}
+		return a;
+	}
+
+	void doDispatch() {
+		const int key = (int)rng.below((uint32_t)nkeys);
+		const int shape = shapeForKey(key);
+		int variant = (int)rng.below(3);
+		if(variant == 1 && ! caps.eventArgForm && ! caps.heter) variant = 0;
+		DArgs a = genArgs(key, shape, (variant == 1 && caps.eventArgForm) ? key : -1);
+		if(shape == SH_PI) a.objp = std::make_shared<VDerived>(a.obj);
+		stack.emplace_back();
+		{
+			PCtx & c = stack.back();
+			c.kind = CK_DIRECT;
+			openFrame(c.f, key, shape, a, false, -1);
+			c.frameOpen = true;
+		}
+		log("dispatch key=" + num(key) + " " + strOf(a, shape) + " form=" + num(variant));
+		DArgs io = a;
+		obj->dispatch(key, shape, variant, io);
+		PCtx & c = stack.back();
+		closeFrame(c.f);
+		if(! dead && ! caps.heter && ! caps.wrapLists) {
+			if(caps.intByRef) {
+				if(io.i0 != c.f.a.i0) fail("dispatch:by-reference-modification-not-seen-by-caller", "caller's int holds " + num(io.i0) + " after dispatch, model says " + num(c.f.a.i0));
+				else if(io.i0 != a.i0) count("caller.saw_by_reference_modification");
+			}
+			else if(io.i0 != a.i0 || io.s != a.s) fail("dispatch:by-value-argument-changed-in-caller", "caller's variables changed by a dispatch with by-value prototype");
+			else if(c.f.modified) count("caller.unaffected_by_value_rewrite");
+		}
+		const bool blocked = c.f.blocked, cut = c.f.cut, vetoed = c.f.vetoed;
+		const int fr = c.f.filtersRun, lr = c.f.listenersRun;
+		stack.pop_back();
+		log("dispatch done: " + num(fr) + " filter(s), " + num(lr) + " listener(s)" + (blocked ? ", blocked" : "") + (cut ? ", cut" : "") + (vetoed ? ", vetoed" : ""));
+	}
+	void doEnqueue() {
+		const int key = (int)rng.below((uint32_t)nkeys);
+		const int shape = caps.shape;
+		int variant = (int)rng.below(3);
+		if(variant == 1 && ! caps.eventArgForm) variant = 0;
+		QEv e;
+		e.key = key; e.shape = shape; e.serial = nextSerial++;
+		e.a = genArgs(key, shape, variant == 1 ? key : -1);
+		pending.push_back(e);
+		obj->enqueue(key, variant, e.a);
+		count("ops.enqueue");
+		if(! stack.empty()) count("ops.enqueue_inside_dispatch");
+		log("enqueue #" + num(e.serial) + " key=" + num(key) + " " + strOf(e.a, shape) + " form=" + num(variant));
+	}
+	void doProcess() {
+		int how = (int)rng.below(4);
+		if(how == 0 && caps.explicitOnly) how = 1 + (int)rng.below(3);
+		stack.emplace_back();
+		{
+			PCtx & c = stack.back();
+			if(how == 0) { c.kind = CK_LAZY; c.batch.assign(pending.begin(), pending.end()); pending.clear(); }
+			else if(how == 1) {
+				c.kind = CK_EXPLICIT;
+				if(! pending.empty()) {
+					c.batch.push_back(pending.front()); pending.pop_front();
+					c.cursor = 0;
+					const QEv & e = c.batch[0];
+					openFrame(c.f, e.key, e.shape, e.a, true, e.serial);
+					c.frameOpen = true;
+				}
+			}
+			else {
+				c.kind = CK_PROCIF; c.batch.assign(pending.begin(), pending.end()); pending.clear();
+				c.predK = (int)rng.below(5); c.predM = rng.chance(1, 4) ? 0 : 2 + (int)rng.below(2); c.predMask = (unsigned)rng.next();
+			}
+			static const char * nm[] = { "process", "processOne", "processIf(pred(args))", "processIf(pred())" };
+			count((std::string("ops.") + nm[how]).c_str());
+			if(stack.size() > 1) count("ops.process_inside_dispatch");
+			log(std::string(nm[how]) + " with " + num((long long)c.batch.size()) + " event(s) taken");
+		}
+		const bool r = obj->process(how);
+		PCtx & c = stack.back();
+		if(c.frameOpen) { closeFrame(c.f); c.frameOpen = false; }
+		if(! dead && c.kind == CK_LAZY) {
+			int trivial = 0;
+			for(int j = c.cursor + 1; j < (int)c.batch.size() && ! dead; ++j) {
+				const QEv & e = c.batch[(size_t)j];
+				Frame tmp; int uid;
+				openFrame(tmp, e.key, e.shape, e.a, true, e.serial);
+				const int ne = nextExpected(tmp, uid);
+				if(ne != NE_NONE) fail(std::string("process:queued-event-not-dispatched:") + (ne == NE_FILTER ? "filter-not-run" : "listener-not-run"),
+					"process() returned without dispatching queued event #" + num(e.serial) + " key=" + num(e.key) + ": " + (ne == NE_FILTER ? "filter f" : "listener c") + num(uid) + " did not run");
+				++trivial;
+			}
+			count("dispatch.queued_with_nothing_to_run", (uint64_t)trivial);
+		}
+		if(! dead && c.kind == CK_PROCIF) {
+			if(c.predCalls != (int)c.batch.size()) fail("processIf:event-not-offered-to-predicate", "processIf called the predicate " + num(c.predCalls) + " time(s) for " + num((long long)c.batch.size()) + " event(s)");
+			for(size_t i = c.declined.size(); i > 0; --i) pending.push_front(c.declined[i - 1]);
+		}
+		stack.pop_back();
+		log("processing call done -> " + num(r));
+	}
+
+	void step(bool nested) {
+		if(dead) return;
+		const bool fp = anyFilterPhase();
+		const bool canNest = (int)stack.size() <= mode.maxDepth;
+		int w[7];
+		w[0] = (caps.hasFilters && ! fp && liveFilters() < 6) ? 10 : 0;
+		w[1] = caps.hasFilters ? 7 : 0;
+		w[2] = (! fp && liveListeners() < 14) ? 14 : 0;
+		w[3] = 7;
+		w[4] = canNest ? (nested ? 10 : 30) : 0;
+		w[5] = caps.isQueue ? 14 : 0;
+		w[6] = (caps.isQueue && canNest) ? (nested ? 4 : (pending.empty() ? 2 : 14)) : 0;
+		int total = 0;
+		for(int i = 0; i < 7; ++i) total += w[i];
+		if(total == 0) return;
+		int c = (int)rng.below((uint32_t)total), op = 0;
+		while(c >= w[op]) { c -= w[op]; ++op; }
+		switch(op) {
+		case 0: doAddFilter(); break;
+		case 1: doRemoveFilter(); break;
+		case 2: doAddListener(); break;
+		case 3: doRemoveListener(); break;
+		case 4: doDispatch(); break;
+		case 5: doEnqueue(); break;
+		default: doProcess(); break;
+		}
+	}
+
+	void run(int nops) {
+		nkeys = rng.range(caps.nkeysMin, caps.nkeysMax);
+		mixK = (int)rng.below(5);
+		static const int mm[] = { 0, 3, 4, 5 };
+		mixM = mm[rng.below(4)];
+		callbackSink() = this;
+		gSink = this;
+		if(caps.veto) log("user mixin vetoes when (arg+" + num(mixK) + ")%" + num(mixM) + "==0" + (mixM ? "" : " (never)"));
+		const int nf = caps.hasFilters ? (int)rng.below(5) : 0;
+		for(int i = 0; i < nf; ++i) doAddFilter();
+		const int nl = 1 + (int)rng.below(6);
+		for(int i = 0; i < nl; ++i) doAddListener();
+		for(int i = 0; i < nops && ! dead; ++i) {
+			budget = 10;
+			step(false);
+			if(! stack.empty() && ! dead) { fail("harness:context-left", "context stack not empty at top level"); break; }
+		}
+		// finale: one more dispatch, then drain the queue
+		if(! dead) { budget = 4; doDispatch(); }
+		for(int t = 0; t < 3 && caps.isQueue && ! dead && ! pending.empty(); ++t) { budget = 4; doProcess(); }
+		callbackSink() = nullptr;
+		gSink = nullptr;
+	}
+};
+
+// ------------------------------------------------------------------ case runner
+static uint64_t gTraceXor = 0;
+
+template <typename ObjT>
+static void runCfg(int cfg, const ModeP & mode, Rng & rng, uint64_t caseNo)
+{
+	ledger().resetCase();
+	const Caps & caps = kCaps[cfg];
+	const int nops = rng.range(mode.minOps, mode.maxOps);
+	uint64_t h;
+	bool nontrivial;
+	{
+		ObjT * o = new ObjT();
+		World w(cfg, o, rng, mode);
+		oplog("config " + num(cfg) + ": " + caps.name + " ops=" + num(nops));
+		w.run(nops);
+		h = w.trace.h;
+		const bool filt = w.nBlockedLater > 0 || w.nRewriteSeen > 0;
+		switch(caps.cls) {
+		case 0: nontrivial = filt; break;
+		case 1: nontrivial = filt && w.nQueuedObserved > 0; break;
+		case 2: nontrivial = w.nCutSuppressing > 0; break;
+		case 3: nontrivial = w.nCutSuppressing > 0 && w.nQueuedObserved > 0; break;
+		default: nontrivial = w.nAdapter > 0 && w.nCondTrue > 0 && w.nCondFalse > 0; break;
+		}
+		count("filters_created", w.filters.size());
+		count("listeners_created", w.lis.size());
+		delete o;
+	}
+	if(! caseHasViolation() && ledger().liveCount(K_CB) != 0)
+		violation("lifetime:functor-leaked-after-destruction", num(ledger().liveCount(K_CB)) + " filter/listener instance(s) alive after the container was destroyed");
+	count("ops", (uint64_t)nops);
+	count((std::string("config.") + num(cfg)).c_str());
+	Fnv f; f.addu(h); f.addu((uint64_t)cfg);
+	if(nontrivial) { markNontrivial(f.h); count((std::string("nontrivial.config.") + num(cfg)).c_str()); }
+	gTraceXor ^= mix(h, caseNo);
+	if(wantSample() && nontrivial && ! caseHasViolation() && (caseNo % 7) == 3) addSample("{\"case\":" + unum(caseNo) + ",\"history\":" + oplogJson(ctx().oplog, 60) + "}");
+}
+
+template <bool Enabled, typename ObjT>
+static typename std::enable_if<Enabled>::type runCfgIf(int cfg, const ModeP & mode, Rng & rng, uint64_t caseNo) { runCfg<ObjT>(cfg, mode, rng, caseNo); }
+template <bool Enabled, typename ObjT>
+static typename std::enable_if<! Enabled>::type runCfgIf(int, const ModeP &, Rng &, uint64_t) {}
+static void skipCase() { --ctx().casesRun; }
+
+typedef HomoObj<eventpp::EventDispatcher<int, void(int, std::string), PolF>, ShIS, true, false> Obj0;
+typedef HomoObj<eventpp::EventDispatcher<int, void(int &, const std::string &), PolF>, ShIRS, true, false> Obj1;
+typedef HomoObj<eventpp::EventQueue<int, void(int, std::string), PolF>, ShIS, true, true> Obj2;
+typedef HomoObj<eventpp::EventDispatcher<int, void(int, std::string), PolFV>, ShIS, true, false> Obj3;
+typedef HomoObj<eventpp::EventQueue<int, void(int &, const std::string &), PolVF>, ShIRS, true, true> Obj4;
+typedef HeterObj Obj5;
+typedef CCListObj Obj6;
+typedef HomoObj<eventpp::EventDispatcher<int, void(int &, int), PolCCb>, ShII, true, false> Obj7;
+typedef HomoObj<eventpp::EventQueue<int, void(int &, int), PolCCc>, ShII, false, true> Obj8;
+typedef HomoObj<eventpp::EventDispatcher<int, void(int, std::string), PolFS>, ShISW, true, false> Obj9;
+typedef WrapListsObj Obj10;
+typedef HomoObj<eventpp::EventDispatcher<int, void(int, std::string), PolPF>, ShIS, true, false> Obj11;
+typedef HomoObj<eventpp::EventQueue<int, void(int, std::string), PolFP>, ShIS, true, true> Obj12;
+
+static void runCase(uint64_t caseNo, Rng & rng)
+{
+	static ModeP mode = modeOf(ctx().mode);
+	const long long only = ctx().optInt("cfg", -1);
+	const int cfg = only >= 0 ? (int)only : (int)(caseNo % NCFG);
+	// VF_CFG_MASK: build only a subset of the configurations (parallel compilation); other cases are skipped
+#ifndef VF_CFG_MASK
+#define VF_CFG_MASK 0x1fff
+#endif
+#define VF_CFG(n) case n: if((VF_CFG_MASK >> n) & 1) { runCfgIf<((VF_CFG_MASK >> n) & 1) != 0, Obj##n>(n, mode, rng, caseNo); } else { skipCase(); } break;
+	switch(cfg) {
+	VF_CFG(0) VF_CFG(1) VF_CFG(2) VF_CFG(3) VF_CFG(4) VF_CFG(5) VF_CFG(6) VF_CFG(7) VF_CFG(8) VF_CFG(9) VF_CFG(10) VF_CFG(11) VF_CFG(12)
+	default: skipCase(); break;
+	}
+}
+
+int main(int argc, char ** argv)
+{
+	return runMain(argc, argv, runCase, []() {
+		ctx().counters["trace_xor_lo"] = gTraceXor & 0xffffffffu;
+		ctx().counters["trace_xor_hi"] = gTraceXor >> 32;
+	});
+}
